@@ -81,10 +81,23 @@ def make_evaluator(cfg: dict):
         decision_threshold=cfg.get("dthr"), **kw)
 
 
+EVAL_OPTIONS = [{}, {}, {}, {"log_times": True}, {"verbose": True}, {"log_times": True, "verbose": True}]
+
+
+def options_for(pred, ref) -> dict:
+    """the reporting options of evaluate() (timing, verbosity) must not influence any result: they are switched on for a part of
+    the inputs, chosen by the CONTENT of the arrays so that a replay of the same input uses the same options"""
+    import zlib
+    h = zlib.crc32(np.ascontiguousarray(pred).tobytes()) ^ zlib.crc32(np.ascontiguousarray(ref).tobytes()) ^ pred.ndim
+    return EVAL_OPTIONS[h % len(EVAL_OPTIONS)]
+
+
 def evaluate(ev, pred, ref, **kw):
     """returns {group: (result, intermediate)} or ('err', ExceptionName, message)"""
     import contextlib
     import io
+    if "log_times" not in kw and "verbose" not in kw and isinstance(pred, np.ndarray) and isinstance(ref, np.ndarray):
+        kw = dict(kw, **options_for(pred, ref))
     try:
         with contextlib.redirect_stdout(io.StringIO()), np.errstate(all="ignore"):
             return ev.evaluate(pred, ref, **kw)
@@ -182,12 +195,31 @@ def perturb(rng, a, labels=None):
     return b
 
 
+def dense_labels(rng, shape, k, dtype):
+    """a label map WITHOUT background: the voxels, in memory order, cut into k runs labelled by a random injective choice of 1..k+2"""
+    n = int(np.prod(shape))
+    k = max(1, min(k, n))
+    cuts = sorted(rng.sample(range(1, n), k - 1)) if k > 1 else []
+    labs = rng.sample(range(1, k + 3), k)
+    flat = np.zeros(n, dtype)
+    for lab, (a, b) in zip(labs, zip([0] + cuts, cuts + [n])):
+        flat[a:b] = lab
+    return flat.reshape(shape)
+
+
 def rand_pair(rng, max_side=6, max_inst=4, dims=(1, 2, 3), dtype=None):
     nd = rng.choice(dims)
     shape = tuple(rng.randint(1 if nd > 1 else 2, max_side) for _ in range(nd))
     dtype = dtype or rng.choice(["uint8", "uint16", "uint32", "uint64"])
     ref = rand_blobs(rng, shape, rng.randint(0, max_inst), dtype=dtype)
     pred = perturb(rng, ref) if rng.random() < 0.7 else rand_blobs(rng, shape, rng.randint(0, max_inst), dtype=dtype)
+    dense = rng.random()
+    if dense < 0.12:
+        # parcellation-like inputs: one or both maps label EVERY voxel (no background anywhere in the pair)
+        if dense < 0.08:
+            ref = dense_labels(rng, shape, rng.randint(1, max(1, max_inst)), dtype)
+        if dense >= 0.04:
+            pred = dense_labels(rng, shape, rng.randint(1, max(1, max_inst)), dtype)
     return pred.astype(dtype), ref.astype(dtype)
 
 
